@@ -125,6 +125,12 @@ theorem C18_exclude_file (data : List Char) (v : List (Nat × Nat)) :
       (entryLines data).mapM (fun l => (NetParse.parseIPNet l).map (fun n => (n.base, n.ones))) = some v :=
   Proofs.Parse.exclude_file data v
 
+/-- a ports or exclusion file whose reading fails part-way is refused as a whole, whatever was read
+    before the fault: never a silently truncated port list or exclusion set (C02 depends on this) -/
+theorem C18_read_fault (delivered : List Char) :
+    (∀ v, withReadFault parsePortsFile delivered ≠ .ok v) ∧ (∀ v, withReadFault parseExcludeFile delivered ≠ .ok v) := by
+  constructor <;> intro v <;> unfold withReadFault <;> split <;> simp
+
 -- non-vacuity (tests, labelled as such)
 example : parsePortRanges "22,80-443,65535".toList = .ok [⟨22, 22⟩, ⟨80, 443⟩, ⟨65535, 65535⟩] := by decide
 example : parsePortRanges "1-2-3".toList = .err := by decide
